@@ -304,8 +304,9 @@ def replay_case(case):
 def run(run):
     cases = []
     piece_sets = [(40,), (20, 20), (5, 12, 8, 15), (7, 7, 7, 7, 6, 6), (3, 9, 4, 11, 6, 2, 5)] if run.tier == "thorough" else [(40,), (5, 12, 8, 15), (7, 7, 7, 7, 6, 6)]
-    for kind in ("named", "unnamed", "dups", "str", "dt") if run.tier == "thorough" else ("named", "unnamed", "str"):
-        for pieces in piece_sets:
+    for kind in ("named", "unnamed", "dups", "str", "dt") if run.tier == "thorough" else ("named", "unnamed", "str", "dups"):
+        for pieces in piece_sets if (kind != "dups" or run.tier == "thorough") else [(5, 12, 8, 15), (11, 11, 18)]:
+            # (dups: index values repeated across file boundaries - the ranges of neighbouring files touch)
             for order in ("sorted", "reversed") if len(pieces) > 1 else ("sorted",):
                 for reader in ("fsspec", "arrow"):
                     for calc in (False, True):
